@@ -504,6 +504,8 @@ class Escape:
                 pass
             if self.nonneg(f, off, st) and (whs or "").endswith("SEEK_CUR"):
                 return set()
+            if (whs or "").endswith("SEEK_CUR") and self._giveback(f, st, recv, off):
+                return set()
             return self._prim(f, "OSError", c, "relative seek " + src(c)[:60], st)
         if self.nonneg(f, off, st):
             return set()
@@ -511,6 +513,38 @@ class Escape:
         if kind != "bytesio":
             out |= self._prim(f, "OSError", c, "absolute seek " + src(c)[:60], st)
         return out
+
+    def _giveback(self, f: Func, st: ast.AST, recv: ast.AST, off: ast.AST) -> bool:
+        """seek(A - len(B), SEEK_CUR) with A >= 0 and B accumulated only from reads of the same stream in this
+        function: the cursor moves back by at most what this function consumed - it cannot pass the start."""
+        if not (isinstance(off, ast.BinOp) and isinstance(off.op, ast.Sub)):
+            return False
+        a, b = off.left, off.right
+        if not (isinstance(b, ast.Call) and dotted(b.func) == "len" and b.args and isinstance(b.args[0], ast.Name)):
+            return False
+        acc = b.args[0].id
+        if not (self.nonneg(f, a, st) or self._guard_nonneg(f, a, st)):
+            return False
+        rname = dotted(recv)
+        for s2, v in assignments_to(f.node, acc):
+            if isinstance(v, ast.Constant) and v.value == b"":
+                continue
+            if isinstance(v, ast.Subscript) and isinstance(v.slice, ast.Slice) and dotted(v.value) == acc:
+                continue  # a slice of the accumulator only shrinks it
+            if isinstance(s2, ast.AugAssign) and isinstance(s2.op, ast.Add):
+                val = s2.value
+                # data += xor(chunk, ..) | data += chunk, with chunk = <recv>.read(k)
+                srcs = [val] if isinstance(val, ast.Name) else list(val.args[:1]) if isinstance(val, ast.Call) else []
+                ok = False
+                for x in srcs:
+                    o = origin(f.node, x)
+                    if isinstance(o, ast.Call) and isinstance(o.func, ast.Attribute) and o.func.attr == "read" and dotted(o.func.value) == rname:
+                        ok = True
+                if ok:
+                    continue
+            return False
+        self.facts_used.append(f"give-back: {f.fq}: seek({src(off)}, SEEK_CUR) returns bytes this function read from {rname}")
+        return True
 
     def _is_wrapper_offset(self, f: Func, off: Optional[ast.AST]) -> bool:
         """Inside the seek() of a package file-like class, its own `offset` parameter is the caller's offset."""
